@@ -375,7 +375,7 @@ func commonScale(fs ...float64) (ints []*big.Int) {
 
 func checkC15(e *env) {
 	r := e.res
-	r.Rule = "every built-in tile matrix set x every tile matrix without variable widths x the four corner tiles, border tiles and random tiles (quick 12, thorough 60 per matrix) x interior points at relative offsets " +
+	r.Rule = "every built-in tile matrix set, as it is and with the corner of origin flipped in every tile matrix, x every tile matrix without variable widths x the four corner tiles, border tiles and random tiles (quick 12, thorough 60 per matrix) x interior points at relative offsets " +
 		"{0.5, 1e-3, 1-1e-3, random, 1-3e-10, 3e-10, 1-2e-8} of the tile: ToNative(tile) against the exact rational corner (within 1e-9 + 4 ulp, the code rounds to 9 decimals), FromNative(interior point) = the tile (points closer than 2e-9 + 4 ulp to a tile border are counted as skipped), " +
 		"points outside the matrix extent map to no tile, MatrixBoundingBox = corner of tile (0,0) .. corner of tile (width,height), axis order x,y whatever the CRS (the order is taken from the document's orderedAxes, not from the implementation's EPSG table); model: op tile (exact integer arithmetic over a common denominator). " +
 		"Non-trivial = border or corner tile, or offset within 1e-3 of a tile border; distinct by op text."
@@ -400,126 +400,154 @@ func checkC15(e *env) {
 			}
 			latlon = docNorthingFirst
 		}
-		ids := make([]int, 0, len(t.TileMatrices))
-		for id := range t.TileMatrices {
-			ids = append(ids, id)
-		}
-		sort.Ints(ids)
-		for _, id := range ids {
-			tm := t.TileMatrices[id]
-			if tm.VariableMatrixWidths != nil {
-				r.Dist["tile:skipped-variable-widths"]++
-				continue
-			}
-			ox, oy := tm.PointOfOrigin[0], tm.PointOfOrigin[1]
-			if lerr == nil && latlon {
-				ox, oy = oy, ox
-			}
-			// x,y order: for the built-ins with a lat/lon CRS the x extent must be the wide one (sanity of the swap): checked through the bbox below
-			tsx, tsy := float64(tm.TileWidth)*tm.CellSize, float64(tm.TileHeight)*tm.CellSize
-			exactCorner := func(c, rw uint) (x, y *big.Rat) {
-				X := new(big.Rat).Add(ratOf(ox), new(big.Rat).Mul(new(big.Rat).SetInt64(int64(c)), new(big.Rat).Mul(ratOf(float64(tm.TileWidth)), ratOf(tm.CellSize))))
-				ty := new(big.Rat).Mul(ratOf(float64(tm.TileHeight)), ratOf(tm.CellSize))
-				var Y *big.Rat
-				if tm.CornerOfOrigin == tms20.BottomLeft {
-					Y = new(big.Rat).Add(ratOf(oy), new(big.Rat).Mul(new(big.Rat).SetInt64(int64(rw)+1), ty))
-				} else {
-					Y = new(big.Rat).Sub(ratOf(oy), new(big.Rat).Mul(new(big.Rat).SetInt64(int64(rw)), ty))
+		// both corner-of-origin conventions: the set as it is and a copy with the other convention in every tile matrix
+		for _, flip := range []bool{false, true} {
+			name, t := name, t
+			if flip {
+				c := cloneTMS(t)
+				for id, tm := range c.TileMatrices {
+					if tm.CornerOfOrigin == tms20.BottomLeft {
+						tm.CornerOfOrigin = tms20.TopLeft
+					} else {
+						tm.CornerOfOrigin = tms20.BottomLeft
+					}
+					c.TileMatrices[id] = tm
 				}
-				return X, Y
+				name, t = name+" (corner of origin flipped)", c
 			}
-			// the code computes in float64 and rounds to 9 decimals: tolerance = that rounding + a few ulp of the largest operand
-			mag := math.Abs(ox) + math.Abs(oy) + float64(tm.MatrixWidth)*tsx + float64(tm.MatrixHeight)*tsy
-			near := func(got float64, want *big.Rat) bool {
-				w, _ := want.Float64()
-				tol := 1e-9 + 8*mag*2.3e-16
-				return math.Abs(got-w) <= tol
+			ids := make([]int, 0, len(t.TileMatrices))
+			for id := range t.TileMatrices {
+				ids = append(ids, id)
 			}
-			var tiles [][2]uint
-			mw, mh := tm.MatrixWidth, tm.MatrixHeight
-			tiles = append(tiles, [2]uint{0, 0}, [2]uint{mw - 1, 0}, [2]uint{0, mh - 1}, [2]uint{mw - 1, mh - 1})
-			for k := 0; k < e.n(12, 60); k++ {
-				c, rw := uint(e.rng.Int63n(int64(mw))), uint(e.rng.Int63n(int64(mh)))
-				switch k % 4 {
-				case 0:
-					c = 0
-				case 1:
-					rw = mh - 1
-				}
-				tiles = append(tiles, [2]uint{c, rw})
-			}
-			for ti, cr := range tiles {
-				c, rw := cr[0], cr[1]
-				pt, ok := t.ToNative(slippy.NewTile(uint(id), c, rw))
-				op := fmt.Sprintf("tile %s id %d (%d,%d)", name, id, c, rw)
-				border := ti < 4 || c == 0 || rw == mh-1
-				if !ok {
-					r.violation(Violation{Oracle: "corner-of-an-existing-tile", Op: op, Impl: "not ok", Detail: "ToNative refused a tile inside the matrix"})
+			sort.Ints(ids)
+			for _, id := range ids {
+				tm := t.TileMatrices[id]
+				if tm.VariableMatrixWidths != nil {
+					r.Dist["tile:skipped-variable-widths"]++
 					continue
 				}
-				X, Y := exactCorner(c, rw)
-				if !near(pt[0], X) || !near(pt[1], Y) {
-					xf, _ := X.Float64()
-					yf, _ := Y.Float64()
-					r.violation(Violation{Oracle: "corner-in-x,y-order", Op: op, Impl: fmt.Sprint(pt), Detail: fmt.Sprintf("exact top-left corner (%v, %v)", xf, yf)})
-					continue
+				ox, oy := tm.PointOfOrigin[0], tm.PointOfOrigin[1]
+				if lerr == nil && latlon {
+					ox, oy = oy, ox
 				}
-				for _, off := range [][2]float64{{0.5, 0.5}, {1e-3, 1e-3}, {1 - 1e-3, 1 - 1e-3}, {e.rng.Float64(), e.rng.Float64()}, {1 - 3e-10, 0.5}, {0.5, 1 - 3e-10}, {3e-10, 3e-10}, {1 - 2e-8, 1 - 2e-8}} {
-					// interior point: top-left corner + (off.x * tsx, -off.y * tsy)
-					px, py := pt[0]+off[0]*tsx, pt[1]-off[1]*tsy
-					margin := 2e-9 + 16*2.3e-16*mag
-					if off[0]*tsx < margin || (1-off[0])*tsx < margin || off[1]*tsy < margin || (1-off[1])*tsy < margin {
-						skipped++
+				// x,y order: for the built-ins with a lat/lon CRS the x extent must be the wide one (sanity of the swap): checked through the bbox below
+				tsx, tsy := float64(tm.TileWidth)*tm.CellSize, float64(tm.TileHeight)*tm.CellSize
+				exactCorner := func(c, rw uint) (x, y *big.Rat) {
+					X := new(big.Rat).Add(ratOf(ox), new(big.Rat).Mul(new(big.Rat).SetInt64(int64(c)), new(big.Rat).Mul(ratOf(float64(tm.TileWidth)), ratOf(tm.CellSize))))
+					ty := new(big.Rat).Mul(ratOf(float64(tm.TileHeight)), ratOf(tm.CellSize))
+					var Y *big.Rat
+					if tm.CornerOfOrigin == tms20.BottomLeft {
+						Y = new(big.Rat).Add(ratOf(oy), new(big.Rat).Mul(new(big.Rat).SetInt64(int64(rw)+1), ty))
+					} else {
+						Y = new(big.Rat).Sub(ratOf(oy), new(big.Rat).Mul(new(big.Rat).SetInt64(int64(rw)), ty))
+					}
+					return X, Y
+				}
+				// the corner of a tile on the side of the origin (top left, or bottom left under the other convention): what the bounding box is made of
+				originCorner := func(c, rw uint) (x, y *big.Rat) {
+					X := new(big.Rat).Add(ratOf(ox), new(big.Rat).Mul(new(big.Rat).SetInt64(int64(c)), new(big.Rat).Mul(ratOf(float64(tm.TileWidth)), ratOf(tm.CellSize))))
+					ty := new(big.Rat).Mul(new(big.Rat).SetInt64(int64(rw)), new(big.Rat).Mul(ratOf(float64(tm.TileHeight)), ratOf(tm.CellSize)))
+					if tm.CornerOfOrigin == tms20.BottomLeft {
+						return X, new(big.Rat).Add(ratOf(oy), ty)
+					}
+					return X, new(big.Rat).Sub(ratOf(oy), ty)
+				}
+				// the code computes in float64 and rounds to 9 decimals: tolerance = that rounding + a few ulp of the largest operand
+				mag := math.Abs(ox) + math.Abs(oy) + float64(tm.MatrixWidth)*tsx + float64(tm.MatrixHeight)*tsy
+				near := func(got float64, want *big.Rat) bool {
+					w, _ := want.Float64()
+					tol := 1e-9 + 8*mag*2.3e-16
+					return math.Abs(got-w) <= tol
+				}
+				var tiles [][2]uint
+				mw, mh := tm.MatrixWidth, tm.MatrixHeight
+				tiles = append(tiles, [2]uint{0, 0}, [2]uint{mw - 1, 0}, [2]uint{0, mh - 1}, [2]uint{mw - 1, mh - 1})
+				for k := 0; k < e.n(12, 60); k++ {
+					c, rw := uint(e.rng.Int63n(int64(mw))), uint(e.rng.Int63n(int64(mh)))
+					switch k % 4 {
+					case 0:
+						c = 0
+					case 1:
+						rw = mh - 1
+					}
+					tiles = append(tiles, [2]uint{c, rw})
+				}
+				for ti, cr := range tiles {
+					c, rw := cr[0], cr[1]
+					pt, ok := t.ToNative(slippy.NewTile(uint(id), c, rw))
+					op := fmt.Sprintf("tile %s id %d (%d,%d)", name, id, c, rw)
+					border := ti < 4 || c == 0 || rw == mh-1
+					if !ok {
+						r.violation(Violation{Oracle: "corner-of-an-existing-tile", Op: op, Impl: "not ok", Detail: "ToNative refused a tile inside the matrix"})
 						continue
 					}
-					tile, ok := t.FromNative(uint(id), geom.Point{px, py})
-					// model: exact integers over a common denominator
-					in := commonScale(px, py, ox, oy, tm.CellSize)
-					corner := 0
-					if tm.CornerOfOrigin == tms20.BottomLeft {
-						corner = 1
+					X, Y := exactCorner(c, rw)
+					if !near(pt[0], X) || !near(pt[1], Y) {
+						xf, _ := X.Float64()
+						yf, _ := Y.Float64()
+						r.violation(Violation{Oracle: "corner-in-x,y-order", Op: op, Impl: fmt.Sprint(pt), Detail: fmt.Sprintf("exact top-left corner (%v, %v)", xf, yf)})
+						continue
 					}
-					mop := fmt.Sprintf("tile %v %v %v %v %v %d %d %d %d %d", in[0], in[1], in[2], in[3], in[4], tm.TileWidth, tm.TileHeight, mw, mh, corner)
-					impl := "none"
+					for _, off := range [][2]float64{{0.5, 0.5}, {1e-3, 1e-3}, {1 - 1e-3, 1 - 1e-3}, {e.rng.Float64(), e.rng.Float64()}, {1 - 3e-10, 0.5}, {0.5, 1 - 3e-10}, {3e-10, 3e-10}, {1 - 2e-8, 1 - 2e-8}} {
+						// interior point: top-left corner + (off.x * tsx, -off.y * tsy)
+						px, py := pt[0]+off[0]*tsx, pt[1]-off[1]*tsy
+						margin := 2e-9 + 16*2.3e-16*mag
+						if off[0]*tsx < margin || (1-off[0])*tsx < margin || off[1]*tsy < margin || (1-off[1])*tsy < margin {
+							skipped++
+							continue
+						}
+						tile, ok := t.FromNative(uint(id), geom.Point{px, py})
+						// model: exact integers over a common denominator
+						in := commonScale(px, py, ox, oy, tm.CellSize)
+						corner := 0
+						if tm.CornerOfOrigin == tms20.BottomLeft {
+							corner = 1
+						}
+						mop := fmt.Sprintf("tile %v %v %v %v %v %d %d %d %d %d", in[0], in[1], in[2], in[3], in[4], tm.TileWidth, tm.TileHeight, mw, mh, corner)
+						impl := "none"
+						if ok {
+							impl = fmt.Sprintf("%d %d", tile.X, tile.Y)
+						}
+						r.count("tile", op+fmt.Sprintf(" offset %v | %s", off, mop), border || off[0] != 0.5)
+						e.pending = append(e.pending, pendingOp{"tile", mop, impl})
+						if !ok || tile.X != c || tile.Y != rw || tile.Z != uint(id) {
+							r.violation(Violation{Oracle: "point-inside-a-tile-finds-that-tile", Op: op + fmt.Sprintf(" offset %v point (%v, %v)", off, px, py), Impl: impl, Detail: fmt.Sprintf("expected tile (%d,%d)", c, rw)})
+						}
+					}
+				}
+				// outside the matrix extent: no tile
+				bl, tr, err := t.MatrixBoundingBox(id)
+				if err != nil {
+					r.violation(Violation{Oracle: "bounding-box", Op: fmt.Sprintf("%s id %d", name, id), Detail: err.Error()})
+					continue
+				}
+				X0, Y0 := originCorner(0, 0)
+				X1, Y1 := originCorner(mw, mh)
+				if tm.CornerOfOrigin == tms20.BottomLeft {
+					Y0, Y1 = Y1, Y0 // the origin is the lower left corner: the box goes up from it
+				}
+				if !near(bl[0], X0) || !near(tr[0], X1) || !near(tr[1], Y0) || !near(bl[1], Y1) {
+					r.violation(Violation{Oracle: "bounding-box-spans-tile(0,0)..tile(width,height)", Op: fmt.Sprintf("%s id %d", name, id), Impl: fmt.Sprint(bl, tr), Detail: fmt.Sprintf("exact corners (%v,%v) (%v,%v)", X0, Y1, X1, Y0)})
+				}
+				w, h := tr[0]-bl[0], tr[1]-bl[1]
+				outside := []geom.Point{{bl[0] - 0.01*w - 1e-6, bl[1] + h/2}, {tr[0] + 0.01*w + 1e-6, bl[1] + h/2}, {bl[0] + w/2, bl[1] - 0.01*h - 1e-6}, {bl[0] + w/2, tr[1] + 0.01*h + 1e-6}, {bl[0] - w, bl[1] - h}}
+				// … and a hair outside (a fraction 3e-10 of a tile, where that is beyond the float error of the borders themselves)
+				if hair := 3e-10 * tsx; hair > 2e-9+16*2.3e-16*mag {
+					outside = append(outside, geom.Point{bl[0] - hair, bl[1] + h/2}, geom.Point{tr[0] + hair, bl[1] + h/2})
+				}
+				if hair := 3e-10 * tsy; hair > 2e-9+16*2.3e-16*mag {
+					outside = append(outside, geom.Point{bl[0] + w/2, bl[1] - hair}, geom.Point{bl[0] + w/2, tr[1] + hair})
+				}
+				for k, p := range outside {
+					_, ok := t.FromNative(uint(id), p)
+					r.count("tile-outside", fmt.Sprintf("tile-outside %s id %d side %d", name, id, k), true)
 					if ok {
-						impl = fmt.Sprintf("%d %d", tile.X, tile.Y)
-					}
-					r.count("tile", op+fmt.Sprintf(" offset %v | %s", off, mop), border || off[0] != 0.5)
-					e.pending = append(e.pending, pendingOp{"tile", mop, impl})
-					if !ok || tile.X != c || tile.Y != rw || tile.Z != uint(id) {
-						r.violation(Violation{Oracle: "point-inside-a-tile-finds-that-tile", Op: op + fmt.Sprintf(" offset %v point (%v, %v)", off, px, py), Impl: impl, Detail: fmt.Sprintf("expected tile (%d,%d)", c, rw)})
+						r.violation(Violation{Oracle: "outside-the-matrix-maps-to-no-tile", Op: fmt.Sprintf("%s id %d point %v", name, id, p), Impl: "a tile", Detail: fmt.Sprintf("matrix extent %v %v", bl, tr)})
 					}
 				}
-			}
-			// outside the matrix extent: no tile
-			bl, tr, err := t.MatrixBoundingBox(id)
-			if err != nil {
-				r.violation(Violation{Oracle: "bounding-box", Op: fmt.Sprintf("%s id %d", name, id), Detail: err.Error()})
-				continue
-			}
-			X0, Y0 := exactCorner(0, 0)
-			X1, Y1 := exactCorner(mw, mh)
-			if !near(bl[0], X0) || !near(tr[0], X1) || !near(tr[1], Y0) || !near(bl[1], Y1) {
-				r.violation(Violation{Oracle: "bounding-box-spans-tile(0,0)..tile(width,height)", Op: fmt.Sprintf("%s id %d", name, id), Impl: fmt.Sprint(bl, tr), Detail: fmt.Sprintf("exact corners (%v,%v) (%v,%v)", X0, Y1, X1, Y0)})
-			}
-			w, h := tr[0]-bl[0], tr[1]-bl[1]
-			outside := []geom.Point{{bl[0] - 0.01*w - 1e-6, bl[1] + h/2}, {tr[0] + 0.01*w + 1e-6, bl[1] + h/2}, {bl[0] + w/2, bl[1] - 0.01*h - 1e-6}, {bl[0] + w/2, tr[1] + 0.01*h + 1e-6}, {bl[0] - w, bl[1] - h}}
-			// … and a hair outside (a fraction 3e-10 of a tile, where that is beyond the float error of the borders themselves)
-			if hair := 3e-10 * tsx; hair > 2e-9+16*2.3e-16*mag {
-				outside = append(outside, geom.Point{bl[0] - hair, bl[1] + h/2}, geom.Point{tr[0] + hair, bl[1] + h/2})
-			}
-			if hair := 3e-10 * tsy; hair > 2e-9+16*2.3e-16*mag {
-				outside = append(outside, geom.Point{bl[0] + w/2, bl[1] - hair}, geom.Point{bl[0] + w/2, tr[1] + hair})
-			}
-			for k, p := range outside {
-				_, ok := t.FromNative(uint(id), p)
-				r.count("tile-outside", fmt.Sprintf("tile-outside %s id %d side %d", name, id, k), true)
-				if ok {
-					r.violation(Violation{Oracle: "outside-the-matrix-maps-to-no-tile", Op: fmt.Sprintf("%s id %d point %v", name, id, p), Impl: "a tile", Detail: fmt.Sprintf("matrix extent %v %v", bl, tr)})
+				if len(e.pending) > 2000 {
+					e.flush()
 				}
-			}
-			if len(e.pending) > 2000 {
-				e.flush()
 			}
 		}
 	}
